@@ -103,11 +103,14 @@ fn hooks_off() {
 //          in this order, the confirming load after the publication.
 // @harness name=l1_attempt props=C02,C01,C03,C10,C14 tier=quick flavour=nostd fn=HybridProtection::attempt+LocalNode::new_fast+fast::Slots::get_debt
 #[cfg_attr(kani, kani::proof)]
+#[cfg_attr(kani, kani::stub(crate::debt::LocalNode::with, crate::debt::verif_h::list_h::with_static))]
+#[cfg_attr(kani, kani::stub(crate::debt::Node::get, crate::debt::verif_h::list_h::node_get_unexpected))]
 #[cfg_attr(kani, kani::unwind(12))]
 pub(crate) fn l1_attempt() {
+    list_h::setup_thread_node();
     fresh_ledger();
     let stored = any_obj();
-    let storage: AtomicPtr<Obj> = AtomicPtr::new(model::addr(stored) as *mut Obj);
+    let storage: AtomicPtr<Obj> = AtomicPtr::new(model::ptr(stored) as *mut Obj);
     LocalNode::with(|l| {
         let node = list_h::local_node(l).unwrap();
         let pre = havoc_fast(l);
@@ -174,11 +177,13 @@ pub(crate) fn l1_attempt() {
 //          slot.swap(cand, SeqCst) -> control.swap(IDLE); the increment only after that swap.
 // @harness name=l1_fallback props=C02,C01,C03,C13,C14 tier=quick flavour=nostd fn=HybridProtection::fallback+LocalNode::new_helping+LocalNode::confirm_helping+helping::Slots::get_debt+helping::Slots::confirm
 #[cfg_attr(kani, kani::proof)]
+#[cfg_attr(kani, kani::stub(crate::debt::LocalNode::with, crate::debt::verif_h::list_h::with_static))]
 #[cfg_attr(kani, kani::unwind(12))]
 pub(crate) fn l1_fallback() {
+    list_h::setup_thread_node();
     fresh_ledger();
     let stored = any_obj();
-    let storage: AtomicPtr<Obj> = AtomicPtr::new(model::addr(stored) as *mut Obj);
+    let storage: AtomicPtr<Obj> = AtomicPtr::new(model::ptr(stored) as *mut Obj);
     let g = helping_h::any_generation();
     LocalNode::with(|l| {
         let pre = havoc_fast(l);
@@ -243,7 +248,7 @@ fn make_prot(node: &'static crate::debt::Node, obj: usize) -> (HybridProtection<
     let has_debt = nd::any_bool();
     let p = model::addr(obj);
     if !has_debt {
-        return (HybridProtection { debt: None, ptr: ManuallyDrop::new(TP(p)) }, None, NONE);
+        return (HybridProtection { debt: None, ptr: ManuallyDrop::new(TP::at(p)) }, None, NONE);
     }
     let i = nd::below(9) as usize;
     let content = match nd::below(3) {
@@ -253,7 +258,7 @@ fn make_prot(node: &'static crate::debt::Node, obj: usize) -> (HybridProtection<
     };
     let slot: &'static Debt = list_h::any_slot(node, i);
     fast_h::poke(slot, content);
-    (HybridProtection { debt: Some(slot), ptr: ManuallyDrop::new(TP(p)) }, Some(i), content)
+    (HybridProtection { debt: Some(slot), ptr: ManuallyDrop::new(TP::at(p)) }, Some(i), content)
 }
 
 // HybridProtection::drop.
@@ -389,7 +394,7 @@ pub(crate) fn l1_strategy_load_nofast() {
 fn strategy_load<C: Config + Default>(use_fast: bool) {
     fresh_ledger();
     let stored = any_obj();
-    let storage: AtomicPtr<Obj> = AtomicPtr::new(model::addr(stored) as *mut Obj);
+    let storage: AtomicPtr<Obj> = AtomicPtr::new(model::ptr(stored) as *mut Obj);
     let s = strategy::<C>();
     let pre = LocalNode::with(|l| havoc_fast(l));
     let g = helping_h::any_generation();
@@ -450,3 +455,4 @@ pub(crate) fn c13_wrap_load_arc() {
     core::mem::forget(s);
     vcover!("c13_wrap_load_arc_end");
 }
+
